@@ -226,6 +226,10 @@ class C09(PropBase):
         for data in G.orphan_files(rng, 6 if quick else 40):
             add("orphan", data, rng.choice([[], ["65536*20"]]), tag="orphan")
         self._dist = dist
+        # the runner gives each worker a contiguous block of cases; the expensive categories (long lines, byte-level runs with large
+        # buffers) are generated together, so deal the cases out round-robin: every block gets its share of each category
+        k = 16
+        cases = [c for j in range(k) for c in cases[j::k]]
         return cases, dist, False
 
     def impl_cmd(self, exe, profile):
